@@ -28,6 +28,8 @@ Step == l' = l + 1
 
 Imsaak == 1  Fajr == 2  Shurooq == 3  Dhuhr == 4  Asr == 5  Maghrib == 6  Isha == 7
 Ok(r, p) == r.t[p] >= 0
+\* reported by conventional calculation: valid and not flagged extreme (calls may run under the default policy)
+Conv(r, p) == r.t[p] >= 0 /\ r.x[p] = 0
 DateOk(e) == ValidDate(e.date.y, e.date.m, e.date.d) /\ e.date.dn = DN(e.date.y, e.date.m, e.date.d)
 Plain(e) == e.p.pol = 0 /\ e.p.rnd = 0 /\ \A i \in 1..7 : e.p.off[i] = 0 /\ e.r.x[i] = 0
 
@@ -68,7 +70,7 @@ C01Call ==
 SinHorizon == 0 - 14544  \* sin(-0.8333 degree) * 10^6
 TolAlt065 == 1134        \* 0.065 degree in radians * 10^6 (cos(alt) = 1 at the horizon)
 AtHorizon(e, p, side) ==
-    Ok(e.r, p) =>
+    Conv(e.r, p) =>
         LET loc == LocalOf(e, p) IN
         /\ Show(<<"RES", "c02", l, p, loc.sinalt - SinHorizon>>)
         /\ AbsI(loc.sinalt - SinHorizon) <= TolAlt065
@@ -96,7 +98,7 @@ C02Weather ==
 Tol042(ang) == MulS(733, Cos(ang)) + 4
 Tol515(ang) == MulS(8988, Cos(ang)) + 4
 AtDepression(e, p, ang, side) ==
-    Ok(e.r, p) =>
+    Conv(e.r, p) =>
         LET dec0 == Dec(Sun0(e))
             h == HourAngle(Rel(e.r, p))
             f == FormulaSinAlt(e.site.lat, dec0, h)
@@ -134,7 +136,7 @@ AsrRoot(z, kk, lo, hi, n) ==
 AsrAltitude(lat, dec, kk) == AsrRoot(AbsI(lat - dec), kk, 0, Quarter, 22)
 C04Call ==
     /\ Is("c04") /\ DateOk(Ev) /\ Ev.out = "ret7" /\ Ok(Ev.r, Dhuhr)
-    /\ Ok(Ev.r, Asr) =>
+    /\ Conv(Ev.r, Asr) =>
           LET dec0 == Dec(Sun0(Ev))
               a == Asin(FormulaSinAlt(Ev.site.lat, dec0, HourAngle(Rel(Ev.r, Asr))))
               want == AsrAltitude(Ev.site.lat, dec0, Ev.p.sch) IN
